@@ -298,6 +298,37 @@ theorem bullet_first_char (h : styleFromList F name specs spacing showAll = .ok 
       subst hk
       exact ⟨⟨r, hs⟩, findFmt_none hf⟩
 
+theorem findFmt_eq_none {spec : Str} (hf : ∀ x ∈ spec, isFmt x = false) : findFmt spec = none := by
+  cases h : findFmt spec with
+  | none => rfl
+  | some t =>
+    have hs : (findFmt spec).isSome = true := by rw [h]; rfl
+    obtain ⟨c, hc, hc'⟩ := (findFmt_isSome_iff spec).1 hs
+    rw [hf c hc] at hc'
+    cases hc'
+
+/-- **C20 (bullet = first character, and only that)**: what follows the first character of a specification without a
+    format character — a variation selector, combining marks, a keycap, a ZWJ sequence, a second astral character,
+    anything — has no influence on the level: the level built for `b :: tail` is the level built for the one-character
+    specification `[b]`, and its bullet is the single code point `b`. -/
+theorem bullet_ignores_tail (showAll : Bool) (units base : Str) (mul : Nat → Str) (i : Nat) (b : Cp) (tail : Str)
+    (hf : ∀ x ∈ b :: tail, isFmt x = false) :
+    mkLevel showAll units base mul i (b :: tail) = mkLevel showAll units base mul i [b] ∧
+    ∃ l, mkLevel showAll units base mul i (b :: tail) = .ok l ∧ l.kind = .bullet b := by
+  have h1 := findFmt_eq_none hf
+  have h2 : findFmt [b] = none :=
+    findFmt_eq_none (fun x hx => hf x (by simp at hx; subst hx; simp))
+  refine ⟨?_, ?_⟩
+  · simp [mkLevel, h1, h2]
+  · refine ⟨{ level := i + 1, kind := .bullet b, spaceBefore := mul (i + 1) ++ units, minLabelWidth := base ++ units }, ?_, rfl⟩
+    simp [mkLevel, h1]
+
+/-- the hypotheses of `bullet_ignores_tail` are satisfiable on the inputs it is about: HEAVY CHECK MARK followed by
+    VARIATION SELECTOR-16, and a keycap sequence `#` U+FE0F U+20E3 -/
+theorem bullet_ignores_tail_examples :
+    (∀ x ∈ [0x2714, 0xFE0F], isFmt x = false) ∧ (∀ x ∈ [0x23, 0xFE0F, 0x20E3], isFmt x = false) := by
+  decide +kernel
+
 /-- **C20 (indentation)** — partial: the two length attributes are the float oracle's strings for `i+1` times the
     number and for the number itself, followed by the unit of the spacing.  That `mul (i+1)` denotes (i+1) × the
     spacing is Python float arithmetic, outside the model (checked by the harness on every generated case). -/
